@@ -230,7 +230,7 @@ def run_shard(ctx):
                 return s_
 
             # the listings' entries may carry their digests under another hash name (cloud etags) than the store's own algorithm
-            ename = "etag" if rng.random() < 0.15 else "md5"
+            ename = rng.choice(["etag", "etag", "sha256", "checksum"]) if rng.random() < 0.2 else "md5"
             if ename != "md5":
                 res.count("merges_of_listings_with_another_hash_name")
 
